@@ -17,6 +17,10 @@
 (*                       request was acknowledged): Observe() fails         *)
 (*   notify(seq,t)       a notification with this observation's token       *)
 (*   cancel              Cancel() called and completed                      *)
+(*   cancelgiveup        Cancel() called, the peer never answers the         *)
+(*                       deregistration and the caller's context ends:       *)
+(*                       Cancel() returns an error - it HAS returned, the    *)
+(*                       application is done with the observation            *)
 (* The callback is invoked for the first answer too when it is "ok".        *)
 (***************************************************************************)
 EXTENDS Integers, Sequences, FiniteSets, TLC
@@ -44,6 +48,6 @@ Step(o, ev) ==
     [] ev.e = "notify" ->
          IF o.st # "live" THEN Keep(o)
          ELSE IF ~o.has \/ Fresh(o.seq, ev.seq, o.t, ev.t) THEN Deliver(o, ev.seq, ev.t) ELSE Keep(o)
-    [] ev.e = "cancel" -> IF o.st = "live" THEN Keep([o EXCEPT !.st = "dead"]) ELSE Keep(o)
+    [] ev.e \in {"cancel", "cancelgiveup"} -> IF o.st = "live" THEN Keep([o EXCEPT !.st = "dead"]) ELSE Keep(o)
     [] OTHER -> Keep(o)
 =============================================================================
